@@ -5,6 +5,7 @@ svdriver_c04: line protocol for the C04 model (SV.Model.Hostile).
 
   footer <gz|legacy|ext> <len> <none|hex extra|->   -> ok <payload> <tocOffset> <tocSize> | err | panic
   footer zstd <len> <hex bytes|->                   -> (same)
+  consts                                            -> <FooterSize of gz> <legacy> <zstd> <externaltoc>
   open <size> <optTocOff> <fSize>,<e|off:size>,<t1>,<t2> ...
                                                     -> <R<off>+<len>|T<n>|Tnil,...|-> <ok|err|panic>
   rd <lenP> <off> <co>:<cs>:<n> ...                 -> <C<off>|A<len>@<off>,...|-> <ok <n>|err|panic>
@@ -139,6 +140,7 @@ def step (s : Unit) : List String → Unit × String
           else if kind = "legacy" then (s, showFooter (legacyFooter len hdr))
           else if kind = "ext" then (s, showFooter (extFooter len hdr))
           else (s, "bad-op")
+  | ["consts"] => (s, s!"{gzFooterSize} {legacyFooterSize} {zstdFooterSize} {extFooterSize}")
   | "open" :: size :: opt :: decs =>
     match parseInt? size, parseInt? opt, decs.mapM parseDec? with
     | some size, some opt, some ds =>
